@@ -28,13 +28,9 @@ pub(crate) fn parse_txn_postings(is: &mut Stream<'_>) -> ModalResult<Posts> {
             Ok(acctn) => acctn,
             Err(err) => return Err(from_error(is, err.as_ref())),
         };
-        let lp = Posting {
-            acctn,
-            amount,
-            txn_amount: amount,
-            is_total_amount: false,
-            txn_commodity: comm,
-            comment: p.1.map(String::from),
+        let lp = match Posting::from(acctn, amount, amount, false, comm, p.1.map(String::from)) {
+            Ok(lp) => lp,
+            Err(err) => return Err(from_error(is, err.as_ref())),
         };
         postings.0.push(lp);
     }
